@@ -27,8 +27,9 @@ def np_seed(seed: int, pid: str, idx: int) -> int:
     return int.from_bytes(h[:4], "big")
 
 
-class CaseTimeout(Exception):
-    pass
+class CaseTimeout(BaseException):
+    """Raised by the per-case watchdog. Not an Exception: `except Exception` in a harness (or in the code under test)
+    must not swallow it and carry on without a watchdog."""
 
 
 def _alarm(signum, frame):  # pragma: no cover
